@@ -204,6 +204,40 @@ theorem process_obs_eq_single {β : Type} (cfg : Cfg) (raws : F → List Raw) (s
     rw [e1] at hI
     exact (outcome_eq_single cfg hE raws files hok hk _ _ hI).2 obs hobs
 
+/-- RECEIVED SUPPRESSION STATE: at the end of every complete schedule the parent has been handed (to `addSuppression` /
+    `updateSuppressionState`) exactly the decoded suppression lines of every worker, as a multiset — nothing lost, nothing
+    twice, whatever the interleaving.  (What the merge and the unmatchedSuppression report make of them: C24.) -/
+theorem process_recv_eq (cfg : Cfg) (raws : F → List Raw) (sups : F → List (Bool × Suppr)) (files : List F) (jobs : Nat)
+    (σ : List PLabel) (s' : PState F)
+    (hE : cfg.emitDuplicates = false)
+    (hmsg : ∀ m ∈ forwarded cfg raws files, (Ev.err m).good cfg = true)
+    (hsup : ∀ f ∈ files, ∀ p ∈ sups f, (Ev.suppr p.1 p.2).good cfg = true)
+    (hrun : prun cfg jobs raws sups (pinit files) σ = some s') (hterm : s'.terminal = true) :
+    s'.parent.recv.Perm (files.flatMap fun f => decodedSups cfg (sups f)) := by
+  have hgood := childEvents_good cfg raws sups files hmsg hsup
+  obtain ⟨h1, h2⟩ := prun_conc cfg hE jobs raws sups files _ hgood σ (ainit files) (ainit_inv cfg raws files)
+  have hinit : (ainit files).conc = pinit files := rfl
+  rw [hinit, hrun] at h1
+  cases ha : arun cfg jobs raws sups (ainit files) σ with
+  | none => rw [ha] at h1; cases h1
+  | some a' =>
+    rw [ha] at h1
+    simp only [Option.map_some, Option.some.injEq] at h1
+    subst h1
+    have h0 : ARecv cfg raws sups files (ainit files) := by intro x; simp [ainit]
+    exact aterminal_recv cfg raws sups files _ a' (h2 a' ha)
+      (arun_recv cfg hE jobs raws sups files _ hgood σ (ainit files) a' (ainit_inv cfg raws files) h0 ha) hterm
+
+/-- … and for transportable lines the decoded state is the transported view of what the worker had -/
+theorem decodedSups_of_transportable (cfg : Cfg) (l : List (Bool × Suppr)) (h : ∀ p ∈ l, p.2.transportable = true) :
+    decodedSups cfg l = l.map fun p => { p.2.transportView cfg.simp with isInline := p.1 } := by
+  induction l with
+  | nil => rfl
+  | cons p l ih =>
+    have hp := h p (by simp)
+    simp only [decodedSups, List.filterMap_cons, suppr_transport cfg.simp p.2 p.1 hp, List.map_cons] at ih ⊢
+    rw [ih (fun q hq => h q (by simp [hq]))]
+
 /-- under the same hypotheses the parent never takes one of handleRead's `std::exit(EXIT_FAILURE)` / uncaught-exception
     paths, whatever the schedule and however far the run got -/
 theorem process_never_dies (cfg : Cfg) (raws : F → List Raw) (sups : F → List (Bool × Suppr)) (files : List F) (jobs : Nat)
